@@ -41,6 +41,7 @@ struct ConfigWorld : World {
 	void gen(Rng &r, Plan &p, int tier) override {
 		p.set("sep", r.chance(3, 4) ? '.' : (r.chance(1, 2) ? '/' : ':'));
 		p.set("empty", r.chance(1, 4));   // allow empty path elements in this run
+		p.set("endc", r.chance(1, 3) ? '=' : 0);      // path end delimiter handed to some assignments and removals (the path text may or may not contain it)
 		int nops = (int) r.range(1, tier ? 80 : 40);
 		bool allocf = r.chance(1, 3);
 		for (int i = 0; i < nops; ++i) {
@@ -84,6 +85,9 @@ struct ConfigWorld : World {
 	void exec(const Plan &p, Log &log, Stats &st) override {
 		const char sep = (char) p.get("sep", '.');
 		const bool allow_empty = p.get("empty") != 0;
+		const char endc = p.get("endc") == '=' ? '=' : 0;
+		// the path text as handed to the C entry points: with an end delimiter configured, it is given for some calls, and some of those carry it (and text behind it)
+		auto path_text = [&](const std::string &ps, int64_t c, int &end) { end = (endc && (c & 8)) ? endc : 0; std::string t = ps; if (end && (c & 16)) { t += endc; t += (c & 32) ? "tail" : ""; } return t; };
 		// stores: 0 = process-wide tree (holders 0..2 alias it), 1 = private C++ root
 		MNode model[2];
 		bool partial[2] = {false, false};     // an assignment failed for lack of memory in this store: empty elements may be left of it (values are still exact)
@@ -144,11 +148,13 @@ struct ConfigWorld : World {
 				static const size_t lens[] = {0, 1, 5, 254, 255, 256, 1000, 70000};
 				size_t vl = lens[op.b % 8];
 				std::string val(vl, 'v'); for (size_t i = 0; i < vl; ++i) val[i] = (char) ('a' + (op.c + i) % 26);
-				Block pb(ps.size() + 1, 0); memcpy(pb.p, ps.c_str(), ps.size() + 1);
-				Block vb(vl + 1, 0); memcpy(vb.p, val.c_str(), vl + 1);
 				int rc; bool cxx = conf && (op.c & 2);
-				{ Sut s(failn); if (cxx) rc = conf->set((const char *) pb.p, (const char *) vb.p, sep) ? 0 : -1; else rc = mpt_config_set(conf, (const char *) pb.p, (const char *) vb.p, sep, 0); fired = g.fired; }
+				int end = 0; std::string pt = cxx ? ps : path_text(ps, op.c, end);
+				Block pb(pt.size() + 1, 0); memcpy(pb.p, pt.c_str(), pt.size() + 1);
+				Block vb(vl + 1, 0); memcpy(vb.p, val.c_str(), vl + 1);
+				{ Sut s(failn); if (cxx) rc = conf->set((const char *) pb.p, (const char *) vb.p, sep) ? 0 : -1; else rc = mpt_config_set(conf, (const char *) pb.p, (const char *) vb.p, sep, end); fired = g.fired; }
 				if (cxx) st.hit("probe:cxx_config_set");
+				if (end) st.hit(pt.size() > ps.size() ? "probe:path_with_end_delimiter" : "probe:end_delimiter_not_in_path");
 				log.ev("ASSIGN holder %d '%s' := %zu bytes%s -> %d", holder, short_path(rel).c_str(), vl, fired ? " allocfail" : "", rc);
 				if (rc < 0) {
 					if (!fired) fail("refused-valid", "assignment of %zu bytes to '%s' through holder %d refused (%d) without allocation fault", vl, short_path(rel).c_str(), holder, rc);
@@ -182,8 +188,9 @@ struct ConfigWorld : World {
 				break;
 			}
 			case OP_REMOVE: {
-				Block pb(ps.size() + 1, 0); memcpy(pb.p, ps.c_str(), ps.size() + 1);
-				int rc = 0; if (conf && (op.c & 2)) { Sut s; conf->del((const char *) pb.p, sep, (op.c & 4) ? (int) ps.size() : -1); st.hit("probe:cxx_config_del"); } else { Sut s; rc = mpt_config_set(conf, (const char *) pb.p, 0, sep, 0); }
+				int end = 0; std::string pt = (conf && (op.c & 2)) ? ps : path_text(ps, op.c, end);
+				Block pb(pt.size() + 1, 0); memcpy(pb.p, pt.c_str(), pt.size() + 1);
+				int rc = 0; if (conf && (op.c & 2)) { Sut s; conf->del((const char *) pb.p, sep, (op.c & 4) ? (int) ps.size() : -1); st.hit("probe:cxx_config_del"); } else { Sut s; rc = mpt_config_set(conf, (const char *) pb.p, 0, sep, end); }
 				log.ev("REMOVE holder %d '%s' -> %d", holder, short_path(rel).c_str(), rc);
 				PathV par(abs.begin(), abs.end() - 1);
 				MNode *pn = find(model[store], par, false);
